@@ -103,6 +103,12 @@ TEXT["C13"] = dict(engine="verus+engineB",
          "client-named identifier which is one of ours), and the table differs from the old one only at the row of yiaddr.",
    note="Assumed: accessor contracts of DhcpOptions/ResponseOptions (HashMap glue), SQL stub contracts; recvdhcp's serverids bookkeeping (async, locks) not under contract.")
 
+TEXT["C17"] = dict(engine="verus+kani",
+   technique="Verus postcondition on the real icmppkt::serialise_router_advertisement (eight loops, per-arm lemmas proved in isolation) against spec functions written from RFC 4861 4.2/4.6, RFC 8106 5.1/5.2, RFC 8781 4, RFC 8910 2.3; Kani complete harnesses for the serialisation primitives the Verus proof assumes",
+   level="Unbounded deductive proof, for every RtrAdvertisement value with any number of options: output == header ++ concat(option encodings): hop limit, M/O flags, router lifetime / reachable / retransmit clamped (never wrapped) to 16/32 bits; MTU; prefix information with "
+         "flags, clamped lifetimes, zero reserved field and zero bits beyond the prefix length; RDNSS split into options of 1..127 servers in order; DNSSL with the encodable names in order, zero padding, omitted when empty; PREF64 with the RFC 8781 length code and 13-bit scaled lifetime, "
+         "omitted for inexpressible lengths; captive-portal URL zero padded; message length a multiple of 8; every option exactly 8 x its length octet. Kani (complete): u8/u16/u32/Ipv6Addr serialise big-endian, prefix_mask has exactly the first n bits set, PLC tables inverse.",
+   note="Not decided: the path from YAML to radv::config::Interface, build_announcement (async netinfo lookups). Tri-state defaults of build_announcement_pure: see unit rabuild if present in evidence.")
 TEXT["C18"] = dict(engine="verus+engineB",
    technique="Verus contracts on Pool::{setup_db, upgrade_schema_from_no_version, upgrade_schema_from_version_0} over a ghost database (version row, write counter) with a terminating loop, allocate_address write frame, engine B reopening file-backed SQLite databases",
    level="Unbounded deductive proof: setup_db terminates, preserves the lease rows, ends with schema version 1, takes the upgrade steps in order each followed by the version record, and refuses a "
